@@ -921,13 +921,16 @@ C13_TEXTS = {
     "sec_colon_cautious": "T154N-R97W Sec 14 NE/4, Sec 15 W/2",
     "suppress_lot_divs": "T154N-R97W Sec 14: N/2 of Lot 1, Lot 2", "ocr_scrub": "TIS4N-R97W Sec 14: NE/4",
     "segment": "QXJVZK T154N-R97W Sec 14: NE/4, W/2 of Sec 15, T155N-R97W",
-    "qq_depth": "T154N-R97W Sec 14: N½N½S½NE¼NW¼", "qq_depth_min": "T154N-R97W Sec 14: N½N½S½",
-    "qq_depth_max": "T154N-R97W Sec 14: N½NE¼NW¼SE¼SW¼", "break_halves": "T154N-R97W Sec 14: N½N½NE¼",
+    "qq_depth": "T154N-R97W Sec 14: N½N½S½NE¼NW¼, NE¼N½, N½E½SW¼", "qq_depth_min": "T154N-R97W Sec 14: N½N½S½, NE¼N½",
+    "qq_depth_max": "T154N-R97W Sec 14: N½NE¼NW¼SE¼SW¼, NE¼N½SE¼, N½E½SW¼SW¼", "break_halves": "T154N-R97W Sec 14: N½N½NE¼, NE¼N½",
     "sec_within": "T154N-R97W: That part of the NE/4 of Sec 13 lying within RoW",
 }
 C13_TRACT_TEXTS = {"parse_qq": "NE/4", "clean_qq": "NE", "suppress_lot_divs": "N/2 of Lot 1, Lot 2",
-                   "qq_depth": "N½N½S½NE¼NW¼", "qq_depth_min": "N½N½S½", "qq_depth_max": "N½NE¼NW¼SE¼SW¼",
-                   "break_halves": "N½N½NE¼"}
+                   "qq_depth": "N½N½S½NE¼NW¼, NE¼N½, N½E½SW¼", "qq_depth_min": "N½N½S½, NE¼N½",
+                   "qq_depth_max": "N½NE¼NW¼SE¼SW¼, NE¼N½SE¼, N½E½SW¼SW¼",
+                   "break_halves": "N½N½NE¼, NE¼N½"}
+# (the depth probes also hold chains written quarter-before-half and with halves of both axes: what the depth settings do
+#  to them depends on the components being put in order first)
 _TRACT_LEVEL = {"clean_qq", "suppress_lot_divs", "qq_depth", "qq_depth_min", "qq_depth_max", "break_halves"}
 
 
